@@ -225,6 +225,9 @@ def run(ctx):
     ctx.require(n5 >= 200, "R8.flatten: only %d requests evaluated" % n5)
     n6 = r8flat.check_record_loop(ctx, ctx.need_fn(prog3, "flatten_req"), "R8.flatten")
     ctx.require(n6 >= 30, "R8.flatten: only %d record cells evaluated" % n6)
+    from rules import r5recskip
+    ctx.rule("R5.recskip", "where the record dimension is dropped, every per-dimension array handed on with the reduced count is advanced")
+    r5recskip.check(ctx, prog3, "R5.recskip", min_instances=3)
     ctx.require(n3 >= 10, "expected >= 10 element moves over parallel arrays in the aggregation layer, found %d" % n3)
     ctx.require(n1 >= 9 and n2 >= 5, "expected >= 9 + 5 numeric report-back sites, found %d + %d" % (n1, n2))
     # --- report back --------------------------------------------------------------------------
